@@ -654,6 +654,37 @@ func c32Gen(g *Gen) {
 		}
 		g.Case(c32Line(res, 1, cs, 64, 1000, "aggr", Pick(r, []int{0, 1, 2, 4, -1}), "ok", resp, order, 200))
 	}
+	// (d) aggressive hedging, directed: after two completions every pending chunk is hedged; one
+	// chunk's original then succeeds and its duplicate fails (a failure to be ignored, but still a
+	// result that has been received), while another chunk loses both attempts. The call must end
+	// with an error, not wait for a result that is not coming.
+	for i := 0; i < g.N(10, 120); i++ {
+		nc := r.Range(4, 6)
+		cs := int64(r.Range(2, 5))
+		n := int(cs)*(nc-1) + r.Range(1, int(cs))
+		res := mkRes(n)
+		perm := make([]int, nc)
+		for k := range perm {
+			perm[k] = k
+		}
+		for k := nc - 1; k > 0; k-- {
+			j := r.Intn(k + 1)
+			perm[k], perm[j] = perm[j], perm[k]
+		}
+		a, b, dup, dead := perm[0], perm[1], perm[2], perm[3]
+		fk := func() string { return Pick(r, []string{"e500", "d", "s0", "w", "e404"}) }
+		resp := []string{fmt.Sprintf("%d:1:%s", dup, fk()), fmt.Sprintf("%d:0:%s", dead, fk())}
+		if r.Chance(70) {
+			resp = append(resp, fmt.Sprintf("%d:1:%s", dead, fk()))
+		}
+		order := []string{fmt.Sprintf("%d:0", a), fmt.Sprintf("%d:0", b), fmt.Sprintf("%d:0", dup), fmt.Sprintf("%d:1", dup)}
+		if r.Bool() {
+			order = append(order, fmt.Sprintf("%d:0", dead), fmt.Sprintf("%d:1", dead))
+		} else {
+			order = append(order, fmt.Sprintf("%d:1", dead), fmt.Sprintf("%d:0", dead))
+		}
+		g.Case(c32Line(res, 1, cs, 64, 1000, "aggr", Pick(r, []int{0, 0, 8, -1}), "ok", resp, order, 200))
+	}
 	if g.Thorough() {
 		// exhaustive: 3 chunks, every assignment of {x, s1, w, e500} to the three initial attempts,
 		// every release order, hedging off
